@@ -209,14 +209,16 @@ impl CaptureSocket for XPubSocket {}
 #[async_trait]
 impl Socket for XPubSocket {
     fn with_options(options: SocketOptions) -> Self {
-        let fair_queue = FairQueue::new(true);
+        let mut fair_queue = FairQueue::new(true);
+        let backend = Arc::new(XPubSocketBackend {
+            subscribers: scc::HashMap::new(),
+            fair_queue_inner: fair_queue.inner(),
+            socket_monitor: Mutex::new(None),
+            socket_options: options,
+        });
+        crate::backend::forget_ended_peers(&mut fair_queue, &backend);
         Self {
-            backend: Arc::new(XPubSocketBackend {
-                subscribers: scc::HashMap::new(),
-                fair_queue_inner: fair_queue.inner(),
-                socket_monitor: Mutex::new(None),
-                socket_options: options,
-            }),
+            backend,
             fair_queue,
             binds: HashMap::new(),
         }
